@@ -59,12 +59,12 @@ Def(n, b)        == Node("Def", n, <<Block(b)>>)                \* def n(): b
 
 ExprKinds == {"Name", "Num", "Str", "Str2", "Const", "Wild", "BinOp", "UnaryOp", "BoolOp", "Compare",
               "Call", "Attribute", "Subscript", "Tuple", "List", "IfExp", "Lambda",
-              "Dict", "Set", "Starred", "ListComp", "SetComp", "DictComp", "GeneratorExp",
+              "Dict", "Set", "Slice", "Starred", "ListComp", "SetComp", "DictComp", "GeneratorExp",
               "JoinedStr", "NamedExpr"}
 StmtKinds == {"Expr", "Assign", "AugAssign", "AnnAssign", "Return", "Pass", "Break", "Continue", "If",
               "While", "For", "Def", "FunctionDef", "ClassDef", "With", "Try", "ExceptHandler", "Import",
               "ImportFrom", "Global", "Global2", "Assert", "Delete", "Raise", "Match", "match_case"}
-\* kinds that are neither: Block, Kw, keyword, Slice, arguments, arg, vararg, kwarg, comprehension,
+\* kinds that are neither: Block, Kw, keyword, arguments, arg, vararg, kwarg, comprehension,
 \* FormattedValue, decorator, returns, withitem, alias, aliasas, MatchValue, MatchAs, MatchSequence, MatchOr
 
 ----------------------------------------------------------------------------
